@@ -1332,6 +1332,11 @@ def algorithm_lookup(out: OutputBuffer, alg_names: str) -> int:
         for (outer_k, outer_v) in adb.items()
     }
 
+    # The database lists 'gss-' key exchanges with a wildcard in place of their base64 field (i.e.: 'gss-gex-sha1-*'); output_algorithm() maps a name such as 'gss-gex-sha1-vz8J1E9PzLr8b1K+0remTg==' onto that entry, so such names are known as well.
+    for algorithm_name in algorithm_names:
+        if algorithm_name.startswith('gss-') and ("%s-*" % algorithm_name[0:algorithm_name.rindex('-')]) in adb['kex']:
+            algorithms_dict['kex'].add(algorithm_name)
+
     unknown_algorithms: List[str] = []
     padding = len(max(algorithm_names, key=len))
 
